@@ -212,6 +212,13 @@ def r06c(ctx, repo):
                 defs = [s for s in own_nodes(fi.node) if isinstance(s, (ast.Assign, ast.AugAssign)) and ast.unparse(s.targets[0] if isinstance(s, ast.Assign) else s.target) == via[0] and s.lineno <= stmt.lineno]
                 txt = " ".join(ast.unparse(s.value) for s in defs)
                 ok = ("%s.meta_y_factor" % recv) in txt and ("%s.y_factor[" % recv) in txt
+                # ... and it *is* the product: every definition is `=`/`*=` of a product of the two factors (no quotient, sum or power)
+                from ..core import algebra as _A
+
+                for s_ in defs:
+                    m_ = _A.mono(s_.value)
+                    if m_ is None or m_[0] != 1 or any(x != 1 for x in m_[1].values()) or (isinstance(s_, ast.AugAssign) and not isinstance(s_.op, ast.Mult)):
+                        ok = False
             ctx.check(ok, "R06c", fi, stmt, "interpolated %s scaled by y_factor and meta_y_factor" % recv, "`%s` is not multiplied by both calibration factors of `%s` (population y_factor and meta_y_factor): calibration has no (or half an) effect on this quantity" % (ast.unparse(c), recv))
     ctx.require(n >= 5, "R06c: fewer interpolate() sites in model.py (%d) than confirmed (5)" % n)
     # Parameter.update and the aggregation store multiply by scale_factor
